@@ -16,7 +16,7 @@ func (e *Env) pkgs(paths ...string) []*packages.Package {
 
 func init() {
 	register("C16", Meta{
-		Explanation: "Lock discipline and determinism, statically: every field of a mutex-carrying struct (goast.DecoratorResolver) that is written after construction is accessed only with the mutex held; package-level variables of the in-scope packages are only read; map-typed resolvers never update their receiver; the in-scope packages contain no go statement, channel operation or select; every range over a map is order-insensitive (auto-classified) or a frozen, reasoned exception; decorate never writes go/ast memory and restore writes the dst tree only inside updateImports. Decides race-freedom of dst's own shared state and absence of map-order dependence; does not look inside go/token, go/parser, go/format.",
+		Explanation: "Lock discipline and determinism, statically: every field of a mutex-carrying struct (goast.DecoratorResolver) that is written after construction is accessed only with the mutex held; package-level variables of the in-scope packages are only read; map-typed resolvers never update their receiver; the in-scope packages contain no go statement, channel operation or select; every range over a map is order-insensitive (auto-classified) or a frozen, reasoned exception; decorate never writes go/ast memory and restore writes the dst tree only inside updateImports. Decides race-freedom of dst's own shared state and absence of map-order dependence; does not look inside go/token, go/parser, go/format. No package-name resolver writes through its receiver; per-file buffers that escaped (SetLines keeps its slice) are not reused, per-file collections are reset; the shared Restorer's file set is defaulted only under a nil test.",
 		NotCovered:  []string{"races inside go/token.FileSet, go/parser, go/format (standard library)", "resolvers supplied by the user"},
 	}, func(e *Env) {
 		e.RLock()
